@@ -104,7 +104,11 @@ impl Rng {
     }
     pub fn below(&mut self,n: usize) -> usize { if n==0 {0} else {(self.next() % n as u64) as usize} }
     pub fn bytes(&mut self,n: usize) -> Vec<u8> {
-        match self.below(8) {
+        match self.below(10) {
+            8 => { // every 128-byte record uniform, the records different from each other
+                let a = self.below(256) as u8; (0..n).map(|i| a.wrapping_add((i/128) as u8)).collect() },
+            9 => { // halves: zeros then ones, split on a record boundary
+                (0..n).map(|i| if i < (n/256)*128 {0} else {0xff}).collect() },
             0 => vec![0;n], 1 => vec![0xff;n],
             2 => (0..n).map(|i| if i%2==0 {0xd5} else {0xaa}).collect(),
             3 => { let b = self.below(256) as u8; vec![b;n] },
